@@ -89,6 +89,18 @@ fn leaf_trees() -> Vec<(String, tir::Tx)> {
     let mut empty = tirb::empty_tx();
     empty.validity = None;
     out.push(("empty tx".into(), empty));
+    // a transaction whose fee expression is absent (nothing to apply a fee to: a constant)
+    let mut no_fees = tirgen::place(5, tir::Expression::Number(1));
+    no_fees.fees = tir::Expression::None;
+    out.push(("fees absent".into(), no_fees));
+    // parameter types: every built-in one, and user-defined ones named like each of them (a type's name is data)
+    use tx3_tir::model::core::Type;
+    for ty in [Type::Undefined, Type::Unit, Type::Int, Type::Bool, Type::Bytes, Type::Address, Type::Utxo, Type::UtxoRef, Type::AnyAsset, Type::List, Type::Map] {
+        out.push((format!("parameter of type {ty:?}"), tirgen::place(5, tirb::param("p", ty))));
+    }
+    for name in ["Undefined", "Unit", "Int", "Bool", "Bytes", "Address", "Utxo", "UtxoRef", "AnyAsset", "List", "Map", "Custom", "", "Parcel", "unit"] {
+        out.push((format!("parameter of custom type {name:?}"), tirgen::place(5, tirb::param("p", Type::Custom(name.to_string())))));
+    }
     out
 }
 
